@@ -85,7 +85,7 @@ iovec_aggregate_ex(iovec_p iov, size_t iov_cnt, size_t data_size, size_t off,
 
 	/* Do not send packet fragment as last packet in buf. */
 	if (0 == iov_cnt || 0 == ret_cnt || 0 == data_size ||
-	    (iov[0].iov_len - off) >= data_size ||
+	    (iov[0].iov_len - off) > data_size ||
 	    (1 == iov_cnt && 0 == (iov[0].iov_len - off))) {
 		if (NULL != reminder_data_size_ret) { /* Nothing taken. */
 			(*reminder_data_size_ret) = data_size;
@@ -216,9 +216,13 @@ r_buf_rpos_init(r_buf_p r_buf, r_buf_rpos_p rpos, size_t data_size) {
 	if (data_size <= r_buf->iov[rpos->iov_index].iov_len ||
 	    0 == (RBUF_F_FULL & r_buf->flags))
 		return (0);
+	if (r_buf->iov_index_max <= r_buf->iov_index ||
+	    ((size_t)(r_buf->iov[r_buf->iov_index_max].iov_base - r_buf->buf)) < r_buf->wpos)
+		return (0); /* Nothing left of the previous round. */
 	rpos->iov_index = r_buf->iov_index_max;
 	rpos->round_num --;
-	while (rpos->iov_index > r_buf->iov_index &&
+	while (rpos->iov_index > (r_buf->iov_index + 1) &&
+	    ((size_t)(r_buf->iov[(rpos->iov_index - 1)].iov_base - r_buf->buf)) >= r_buf->wpos &&
 	    data_size >= r_buf->iov[rpos->iov_index].iov_len) {
 		data_size -= r_buf->iov[rpos->iov_index].iov_len;
 		rpos->iov_index --;
@@ -405,6 +409,7 @@ r_buf_alloc(uintptr_t fd, size_t size, size_t min_block_size) {
 	//r_buf->iov_index = ~0; /* r_buf_wbuf_get() increment this, set to: -1. */
 	r_buf->buf_max = (r_buf->buf + r_buf->size);
 	r_buf->min_block_size = min_block_size;
+	r_buf->iov[0].iov_base = r_buf->buf;
 
 	return (r_buf);
 
@@ -443,6 +448,7 @@ r_buf_wbuf_pos_inc(r_buf_p r_buf) {
 		r_buf->iov_index ++;
 		r_buf->iov[r_buf->iov_index].iov_len = 0;
 	}
+	r_buf->iov[r_buf->iov_index].iov_base = (r_buf->buf + r_buf->wpos);
 	if (buf_size < min_buf_size || /* Not enough space at buf end. */
 	    buf_size < r_buf->min_block_size /*||
 	    r_buf->iov_count == r_buf->iov_index*/) { /* Paranoid check. */
@@ -476,6 +482,7 @@ r_buf_wbuf_get(r_buf_p r_buf, size_t min_buf_size, uint8_t **buf) {
 		r_buf->iov_index ++;
 		r_buf->iov[r_buf->iov_index].iov_len = 0;
 	}
+	r_buf->iov[r_buf->iov_index].iov_base = (r_buf->buf + r_buf->wpos);
 	if (buf_size < min_buf_size || /* Not enough space at buf end. */
 	    buf_size < r_buf->min_block_size /*||
 	    r_buf->iov_count == r_buf->iov_index*/) { /* Paranoid check. */
